@@ -447,6 +447,12 @@ pub fn execute(shared: Shared, mode: ExecMode, stack_budget: u64, nthreads: u64)
                         Ok(r) => {
                             if slot == 0 {
                                 probe("e4.rendered_all");
+                                if state.mac_crash_info.as_ref().map(|v| !v.is_empty()).unwrap_or(false) {
+                                    probe("e4.mac_crash_info_read");
+                                }
+                                if state.mac_boot_args.as_ref().map(|b| b.bootargs.is_some()).unwrap_or(false) {
+                                    probe("e4.mac_boot_args_read");
+                                }
                                 if let Err(e) = serde_json::from_slice::<serde_json::Value>(&r.json) {
                                     problems.borrow_mut().2 = Some(format!("compact JSON does not parse: {e}"));
                                 }
